@@ -4,8 +4,14 @@ from __future__ import annotations
 
 def audit_generic(prog, rep, pid):
     from .audit_impl import mutation_audit, run_audit
-    run_audit(prog, rep, pid)
-    mutation_audit(prog, rep, pid)
+    from .rules import shapeexec
+    saved = shapeexec.THOROUGH[0]
+    shapeexec.THOROUGH[0] = False     # the audits re-run the rules on many mutated programs: quick-size grids there
+    try:
+        run_audit(prog, rep, pid)
+        mutation_audit(prog, rep, pid)
+    finally:
+        shapeexec.THOROUGH[0] = saved
 
 
 def audit_c01(prog, rep):
